@@ -39,6 +39,9 @@ func init() {
 			delay := []int{0, 0, 1, 5, 20, 40, 60, 100}[r.Intn(8)]
 			res := r.Pick("ok", "ok", "err")
 			return c.Add(sexp.A("shape"), sexp.A(shape), sexp.N(delay), sexp.A(res))
+		case "crowd":
+			// many runners at once, each inside a command of its own that returns only when all of them have been invoked
+			return c.Add(sexp.A("crowd"), sexp.N([]int{3, 17, 24, 40, 70}[r.Intn(5)]), sexp.A(r.Pick("noret", "err", "chan", "raw")))
 		case "cross":
 			// two runners: what one of them does to its own pending command (restore, completion, error) while the other sits in
 			// a built-in wait
